@@ -1,10 +1,504 @@
-(** C12 - a described situation becomes exactly that simulation (statements only). *)
-From Coq Require Import ZArith QArith List Bool String.
-From Verif Require Import Base Cal Tables Period Builder BuilderProofs.
+(** C12 - A described situation becomes exactly that simulation.
+    Only statements here; the proofs are in proofs/BuilderProofs.v.  The model functions
+    ([build_from_dict], [build_from_entities], [add_person_entity], [add_group_entity],
+    [add_variable_value], [sort_periods], [flush_periods], [expand_axes] ...) are those of
+    model/Builder.v, the very definitions that the correspondence check (corr/Corr_C12.v) runs
+    against SimulationBuilder.build_from_dict.  The vocabulary of the statements ([declares],
+    [declared_member], [stored], [ill_formed] ...) is in model/BuilderSpec.v.
+
+    A situation is a JSON tree.  [x : ext] holds what is external to the model: the
+    tokenisation [tok] of key / date texts, numexpr's reading [evalx] of a text as a number and
+    Python's iteration order [set_order] of the set of persons still to allocate.  Every
+    theorem holds for all of them. *)
+From Coq Require Import ZArith QArith List Bool String Permutation Sorted.
+From Verif Require Import Base Cal Tables Period Builder BuilderSpec BuilderProofs.
 Import ListNotations.
 Open Scope Z_scope.
+Open Scope string_scope.
+Open Scope list_scope.
 
+(** * 1. Equivalent spellings of a period key build the same simulation *)
+
+(** Two readings [x], [x'] of the texts agree on the canonical form of every key (and on date
+    values, numbers and the set order): then every entity-shaped document builds the same
+    simulation (or fails alike).  Replacing the key text [t] by a text [t'] with the same
+    canonical form is the same as reading the unchanged document with a tokeniser that reads
+    [t] as [t'], so this is "whatever equivalent spelling of the period is used"; it covers
+    the keys of every instance and the periods of the axes. *)
 Theorem spelling_irrelevant : forall x x', same_reading x x' ->
   forall s doc, build_from_entities x s doc = build_from_entities x' s doc.
 Proof. exact build_from_entities_reading. Qed.
 Print Assumptions spelling_irrelevant.
+
+(** the same at the entry point, for every document that names no variable at top level *)
+Theorem spelling_irrelevant_entities : forall x x' s doc,
+  same_reading x x' ->
+  existsb (fun k => match find_var k (s_vars s) with Some _ => true | None => false end)
+          (map fst doc) = false ->
+  doc <> [] ->
+  build_from_dict x s (JObj doc) = build_from_dict x' s (JObj doc).
+Proof. exact build_from_dict_reading. Qed.
+Print Assumptions spelling_irrelevant_entities.
+
+(** every shape, variables-only included (it does not go through the canonical text):
+    spellings that parse to the same period *)
+Theorem spelling_irrelevant_all_shapes : forall x x', same_parse x x' ->
+  forall s input, build_from_dict x s input = build_from_dict x' s input.
+Proof. exact build_from_dict_parse. Qed.
+Print Assumptions spelling_irrelevant_all_shapes.
+
+Definition ext_a : ext :=
+  mkExt (fun t => if String.eqb t "k" then KPref Month (SYM 2018 1) None else KGarbage)
+        (fun _ => None) (fun l => l).
+Definition ext_b : ext :=
+  mkExt (fun t => if String.eqb t "k" then KPref Month (SYMD 2018 1 1) (Some 1) else KGarbage)
+        (fun _ => None) (fun l => l).
+Example spelling_irrelevant_nonvacuous :
+  same_reading ext_a ext_b /\ tok ext_a "k" <> tok ext_b "k"
+  /\ canon_key (KPref Year (SYM 2018 3) (Some 1)) = canon_key (KPref Month (SYMD 2018 3 9) (Some 12))
+  /\ canon_key (KEternity "eternity") = canon_key (KEternity "ETERNITY")
+  /\ canon_key (KPref Week (SYMD 2018 1 3) None) = canon_key (KPref Week (SYMD 2018 1 1) (Some 1)).
+Proof.
+  split; [|split; [discriminate|repeat split]].
+  repeat split; intros t; cbn; unfold date_of_text; cbn; destruct (String.eqb t "k"); reflexivity.
+Qed.
+
+(** * 2. The buffer is flushed shortest periods first *)
+
+(** [sort_periods] is the order in which [flush_periods] (entity shapes, per variable) and
+    [set_dated] (variables-only shape) set the inputs.  It is a permutation of the buffered
+    entries in which no entry is strictly shorter ([shorter]: lighter unit by
+    gen/Tables.v [unit_weight], or same weight and smaller size) than an earlier one. *)
+Theorem flush_order_shortest_first : forall (A : Type) (entries : list (period * A)),
+  Permutation (sort_periods entries) entries /\
+  StronglySorted (fun a b => ~ shorter (fst b) (fst a)) (sort_periods entries) /\
+  (forall l1 a l2 b l3, sort_periods entries = l1 ++ a :: l2 ++ b :: l3 -> ~ shorter (fst b) (fst a)).
+Proof. exact flush_order_full. Qed.
+Print Assumptions flush_order_shortest_first.
+
+(** the inputs are set one after the other in the order of that list *)
+Theorem flush_in_list_order : forall v count l1 h l2,
+  flush_periods v count h (l1 ++ l2)
+  = bind (flush_periods v count h l1) (fun h' => flush_periods v count h' l2).
+Proof. exact flush_periods_app. Qed.
+Print Assumptions flush_in_list_order.
+
+Example flush_order_nonvacuous :
+  map fst (sort_periods [((Month, (2018, 1, 1), 10), 1); ((Year, (2018, 1, 1), 1), 2);
+                         ((Month, (2018, 1, 1), 2), 3); ((Month, (2018, 3, 1), 1), 4)])
+  = [(Month, (2018, 3, 1), 1); (Month, (2018, 1, 1), 2); (Month, (2018, 1, 1), 10); (Year, (2018, 1, 1), 1)]
+  /\ shorter (Month, (2018, 1, 1), 2) (Month, (2018, 1, 1), 10).
+Proof. split; [reflexivity|right; split; [reflexivity|reflexivity]]. Qed.
+
+(** * 3. Ill-formed descriptions are refused with the situation error *)
+
+(** full statement: an entity-shaped document with an ill-formed item (any class of the
+    property text, at any place) never builds; the error is the situation error unless
+    something read earlier is outside the modelled language ([EUnmodelled]). *)
+Definition ill_formed_rejected_statement : Prop :=
+  forall x s doc, wf_sys s ->
+    (forall l, Permutation (set_order x l) l) ->
+    ill_formed x s doc ->
+    build_from_entities x s doc = Err ESituation \/ build_from_entities x s doc = Err EUnmodelled.
+(* Proved below: the class "unknown entity" in full ([unknown_entity_rejected]); for the other
+   classes the rejection of the FIRST ill-formed item the builder meets, i.e. under the
+   hypothesis that what was read before it was accepted ([person_declaration_rejected] with
+   the lemmas [..._refused] / [..._value] for unknown variable, text for a number, unknown
+   enum name, impossible date, unparsable period; [group_instance_rejected] with
+   [unknown_person_...], [duplicate_...], [too_many_...]; [mismatched_period_rejected]).
+   Missing for [ill_formed_rejected_statement]: the induction over the position of the item
+   showing that whatever is read before it either is accepted or already fails with
+   ESituation / EUnmodelled (this needs the invariant that buffered arrays have the length of
+   their entity, to exclude the model's IndexError case), and the same lemmas threaded through
+   [add_groups] for declarations inside groups. *)
+
+Theorem unknown_entity_rejected : forall x s doc k,
+  In k (map fst doc) -> k <> "axes" -> ~ In k (plurals s) -> ~ In k (singulars s) ->
+  (existsb (fun k => mem_str k (singulars s)) (map fst doc) = true
+   \/ existsb (fun k => match find_var k (s_vars s) with Some _ => true | None => false end)
+              (map fst doc) = false) ->
+  build_from_dict x s (JObj doc) = Err ESituation.
+Proof. exact BuilderProofs.unknown_entity_rejected. Qed.
+Print Assumptions unknown_entity_rejected.
+
+(** [refused_field x s e f]: the declaration [f] (variable name, values) is refused with the
+    situation error whatever was read before, for any instance of [e]. *)
+Theorem unknown_variable_refused : forall x s e vn vals,
+  find_var vn (s_vars s) = None -> refused_field x s e (vn, vals).
+Proof. exact BuilderProofs.unknown_variable_refused. Qed.
+Print Assumptions unknown_variable_refused.
+
+Theorem other_entity_variable_refused : forall x s e vn vals v,
+  find_var vn (s_vars s) = Some v -> v_entity v <> e_key e -> refused_field x s e (vn, vals).
+Proof. exact BuilderProofs.other_entity_variable_refused. Qed.
+Print Assumptions other_entity_variable_refused.
+
+(** [refused_entry x v (t, value)]: the pair is refused with the situation error in any state *)
+Theorem unparsable_period_refused : forall x v t value k,
+  parse_key (tok x t) = Err k -> refused_entry x v (t, value).
+Proof. exact BuilderProofs.unparsable_period_refused. Qed.
+Print Assumptions unparsable_period_refused.
+
+Theorem bad_value_refused : forall x v t value p,
+  value <> JNull -> canon_key (tok x t) = Ok p -> check_set_value x v value = Err EValue ->
+  refused_entry x v (t, value).
+Proof. exact BuilderProofs.bad_value_refused. Qed.
+Print Assumptions bad_value_refused.
+
+Theorem text_for_number_value : forall x v s,
+  (v_type v = TInt \/ v_type v = TFloat) -> evalx x s = None ->
+  check_set_value x v (JStr s) = Err EValue.
+Proof. exact BuilderProofs.text_for_number_value. Qed.
+Print Assumptions text_for_number_value.
+
+Theorem unknown_enum_value : forall x v s,
+  v_type v = TEnum -> ~ In s (v_enum v) -> check_set_value x v (JStr s) = Err EValue.
+Proof. exact BuilderProofs.unknown_enum_value. Qed.
+Print Assumptions unknown_enum_value.
+
+Theorem impossible_date_value : forall x v s y m d,
+  v_type v = TDate -> tok x s = KPlain (SYMD y m d) -> validb (y, m, d) = false ->
+  check_set_value x v (JStr s) = Err EValue.
+Proof. exact BuilderProofs.impossible_date_value. Qed.
+Print Assumptions impossible_date_value.
+
+(** a refused pair inside the dated values of a variable, after pairs that were accepted *)
+Theorem refused_entry_in_field : forall x s e vn v pre tv post st id rest idx st',
+  find_var vn (s_vars s) = Some v -> v_entity v = e_key e ->
+  index_of id (get_ids st (e_plural e)) = Some idx ->
+  add_dated x st e v idx pre = Ok st' ->
+  refused_entry x v tv ->
+  init_variable_values x s st e ((vn, JObj (pre ++ tv :: post)) :: rest) id = Err ESituation.
+Proof. exact BuilderProofs.refused_entry_in_field. Qed.
+Print Assumptions refused_entry_in_field.
+
+(** document level: the first refused declaration [bad] of a person ([pre_i]: the persons read
+    before, [pre]: that person's declarations read before, all accepted) makes the build fail
+    with the situation error *)
+Theorem person_declaration_rejected :
+  forall x s doc persons pre_i pid pre bad post post_i st1 st2,
+  existsb (fun kv : string * json => negb (mem_str (fst kv) (plurals s))) (aremove "axes" doc) = false ->
+  aget (e_plural (s_person s)) (aremove "axes" doc) = Some (JObj persons) ->
+  persons = pre_i ++ (pid, JObj (pre ++ bad :: post)) :: post_i ->
+  add_person_instances x s (set_ids b_empty (e_plural (s_person s)) (map fst persons)) pre_i = Ok st1 ->
+  init_variable_values x s st1 (s_person s) pre pid = Ok st2 ->
+  index_of pid (get_ids st2 (e_plural (s_person s))) <> None ->
+  (forall st id rest, index_of id (get_ids st (e_plural (s_person s))) <> None ->
+                      init_variable_values x s st (s_person s) (bad :: rest) id = Err ESituation) ->
+  build_from_entities x s doc = Err ESituation.
+Proof. exact BuilderProofs.person_declaration_rejected. Qed.
+Print Assumptions person_declaration_rejected.
+
+(** persons in groups: [todo] are the persons not yet allocated when the role lists [rj] of a
+    group are read *)
+Theorem unknown_person_rejected : forall pids rj r l pid todo,
+  In (r, JArr l) rj -> In (JStr pid) l -> ~ In pid pids ->
+  allocate_roles pids todo rj = Err ESituation.
+Proof. exact unknown_person_full. Qed.
+Print Assumptions unknown_person_rejected.
+
+Theorem duplicate_membership_rejected :
+  (* already allocated by an earlier list, role or group *)
+  (forall pids rj r l pid todo,
+     In (r, JArr l) rj -> In (JStr pid) l -> ~ In pid todo ->
+     allocate_roles pids todo rj = Err ESituation) /\
+  (* allocating a person removes it from what is still to allocate *)
+  (forall pids l todo todo',
+     allocate_list pids todo l = Ok todo' ->
+     (forall p, In p todo' -> In p todo) /\ (forall p, In (JStr p) l -> ~ In p todo')) /\
+  (* twice in the same list *)
+  (forall pids l1 l2 pid todo,
+     In (JStr pid) l1 -> allocate_list pids todo (l1 ++ JStr pid :: l2) = Err ESituation).
+Proof. exact duplicate_membership_full. Qed.
+Print Assumptions duplicate_membership_rejected.
+
+Theorem too_many_role_holders_rejected : forall pids gidx rj r l mx mr,
+  In (r, JArr l) rj -> r_max r = Some mx -> mx < Z.of_nat (List.length (person_ids_of l)) ->
+  assign_roles pids gidx rj mr = Err ESituation.
+Proof. exact too_many_full. Qed.
+Print Assumptions too_many_role_holders_rejected.
+
+Theorem group_instance_rejected : forall x s e pids eids gid fields rest st todo mr,
+  (allocate_roles pids todo (roles_json e fields) = Err ESituation
+   \/ (exists todo', allocate_roles pids todo (roles_json e fields) = Ok todo'
+       /\ forall gi, assign_roles pids gi (roles_json e fields) mr = Err ESituation)) ->
+  In gid eids ->
+  add_group_instances x s e pids eids ((gid, JObj fields) :: rest) st todo mr = Err ESituation.
+Proof. exact BuilderProofs.group_instance_rejected. Qed.
+Print Assumptions group_instance_rejected.
+
+(** a period that does not match the variable's definition period (no set-input rule), or the
+    eternity for a dated variable, is a PeriodMismatchError of the holder, and the flush turns
+    it into the situation error *)
+Theorem mismatched_period_rejected :
+  (forall v n h P a,
+     eternal v = false ->
+     (p_unit P = Eternity
+      \/ (v_rule v = RNone /\ List.length a = n /\ (p_unit P <> v_def v \/ 1 < p_size P))) ->
+     holder_set_input v n h P a = Err EMismatch) /\
+  (forall s e count pre vn entries post hs hs' v,
+     flush_buffer s e count pre hs = Ok hs' ->
+     find_var vn (s_vars s) = Some v -> v_entity v = e_key e ->
+     flush_periods v count (match aget vn hs' with Some h => h | None => [] end) (sort_periods entries)
+     = Err EMismatch ->
+     flush_buffer s e count (pre ++ (vn, entries) :: post) hs = Err ESituation).
+Proof. exact mismatched_period_full. Qed.
+Print Assumptions mismatched_period_rejected.
+
+(** * 4. What a successful build contains *)
+
+(** full statement, for documents without axes: ids in declaration order plus one group per
+    person left out; memberships and roles as declared; every declared value stored under the
+    canonical period of its key at its instance's index (variables without a set-input rule,
+    periods of the definition unit: the other cases are C16's conservation laws) *)
+Definition build_spec_statement : Prop :=
+  forall x s doc sim, wf_sys s ->
+    (forall l, Permutation (set_order x l) l) ->
+    aget "axes" doc = None ->
+    build_from_entities x s doc = Ok sim ->
+    (* persons *)
+    (forall persons pop, instances_of doc (s_person s) = Some persons -> pop_of sim (s_person s) pop ->
+       p_ids pop = map fst persons) /\
+    (* groups *)
+    (forall e l persons pop, In e (s_groups s) -> instances_of doc e = Some l ->
+       instances_of doc (s_person s) = Some persons -> pop_of sim e pop ->
+       exists own, p_ids pop = map fst l ++ own
+         /\ Permutation own (filter (fun p => negb (existsb (fun gf =>
+               match snd gf with
+               | JObj fields => existsb (fun r => mem_str p (role_members r fields)) (e_roles e)
+               | _ => false end) l)) (map fst persons))
+         /\ (forall gid r i pid gi k, declared_member e l gid r i pid ->
+               index_of gid (map fst l) = Some gi -> index_of pid (map fst persons) = Some k ->
+               nth_error (p_members pop) k = Some (Z.of_nat gi)
+               /\ nth_error (p_mroles pop) k = Some (role_at r i))
+         /\ (forall pid k, In pid own -> index_of pid (map fst persons) = Some k ->
+               exists g, nth_error (p_members pop) k = Some (Z.of_nat g)
+                         /\ nth_error (p_ids pop) g = Some pid /\ (List.length l <= g)%nat
+                         /\ nth_error (p_mroles pop) k = Some (first_role e)
+                         /\ forall vn h p arr, aget vn (p_holders pop) = Some h -> hget h p = Some arr ->
+                              exists v, find_var vn (s_vars s) = Some v
+                                        /\ nth_error arr g = Some (v_default v))) /\
+    (* values *)
+    (forall e l id fields dated vn t value v p c idx pop,
+       In e (entities s) -> instances_of doc e = Some l ->
+       In (id, JObj fields) l -> In (vn, JObj dated) fields -> In (t, value) dated ->
+       value <> JNull -> find_var vn (s_vars s) = Some v -> v_rule v = RNone -> v_end v = None ->
+       canon_key (tok x t) = Ok p -> last_for x dated t p -> check_set_value x v value = Ok c ->
+       index_of id (map fst l) = Some idx -> pop_of sim e pop ->
+       stored pop vn (storage_key v p) idx c).
+(* Proved: the persons clause at document level ([build_persons_ids]); for the other clauses
+   the step of the builder that establishes them: [add_group_entity_ids] (ids = declared ++
+   set_order of the persons left out), [assign_members_spec] (group index and (sub-)role by
+   rank, nobody else touched), [allocate_own_spec] (fresh distinct group, first role),
+   [pad_array_spec] (the added groups hold the default, the declared ones keep their values),
+   [add_variable_value_spec] (the converted value is placed under the canonical key at the
+   instance's index, nothing else changes).  Missing: the frame lemmas that carry these facts
+   through the later steps (other instances, other entities, the flush: each buffered array is
+   stored under its own key because the buffer keys are pairwise distinct) up to the final
+   [simulation]. *)
+
+Theorem build_spec_partial :
+  (* persons of the built simulation *)
+  (forall x s doc sim persons,
+     ~ In (e_plural (s_person s)) (map e_plural (s_groups s)) ->
+     aget "axes" doc = None ->
+     aget (e_plural (s_person s)) (aremove "axes" doc) = Some (JObj persons) ->
+     build_from_entities x s doc = Ok sim ->
+     exists pop rest, sim = pop :: rest /\ p_entity pop = e_key (s_person s)
+                      /\ p_ids pop = map fst persons) /\
+  (* ids of a group kind *)
+  (forall x s st pids e instances st',
+     add_group_entity x s st pids e (JObj instances) = Ok st' ->
+     exists st1 todo mr,
+       add_group_instances x s e pids (map fst instances) instances
+         (set_ids st (e_plural e) (map fst instances)) pids
+         (repeat 0 (List.length pids), repeat EmptyString (List.length pids)) = Ok (st1, todo, mr) /\
+       aget (e_plural e) (b_ids st')
+       = Some (map fst instances ++ match todo with [] => [] | _ => set_order x todo end)) /\
+  (* a declared value *)
+  (forall x st e v idx t value st',
+     value <> JNull ->
+     add_variable_value x st e v idx t value = Ok st' ->
+     exists p c old,
+       canon_key (tok x t) = Ok p /\ check_set_value x v value = Ok c /\
+       old = match buf_get (b_buffer st) (v_name v) p with
+             | Some a => a
+             | None => default_array v (get_count st (e_plural e))
+             end /\
+       (idx < List.length old)%nat /\
+       buf_get (b_buffer st') (v_name v) p = Some (list_set idx c old) /\
+       (forall vn' p', (vn', p') <> (v_name v, p) ->
+                       buf_get (b_buffer st') vn' p' = buf_get (b_buffer st) vn' p') /\
+       b_ids st' = b_ids st /\ b_members st' = b_members st /\ b_roles st' = b_roles st /\
+       b_ax_ids st' = b_ax_ids st).
+Proof. exact build_spec_partial_full. Qed.
+Print Assumptions build_spec_partial.
+
+(** members of a role list: group index and (sub-)role by rank; the others untouched *)
+Theorem declared_members_assigned : forall pids r gidx l i mr,
+  NoDup l ->
+  List.length (fst mr) = List.length pids -> List.length (snd mr) = List.length pids ->
+  let mr' := assign_members pids r gidx i l mr in
+  List.length (fst mr') = List.length pids /\ List.length (snd mr') = List.length pids /\
+  (forall j pid k, nth_error l j = Some pid -> index_of pid pids = Some k ->
+     nth_error (fst mr') k = Some gidx /\ nth_error (snd mr') k = Some (role_at r (i + j))) /\
+  (forall k, (forall pid, In pid l -> index_of pid pids <> Some k) ->
+     nth_error (fst mr') k = nth_error (fst mr) k /\ nth_error (snd mr') k = nth_error (snd mr) k).
+Proof. exact assign_members_spec. Qed.
+Print Assumptions declared_members_assigned.
+
+(** persons left out: the j-th of them gets the new group [g + j] (after the [g] declared
+    ones) with the first role; the arrays of the group kind are padded with defaults *)
+Theorem own_groups :
+  (forall pids first own g mr,
+     NoDup own ->
+     List.length (fst mr) = List.length pids -> List.length (snd mr) = List.length pids ->
+     let mr' := allocate_own pids g first own mr in
+     List.length (fst mr') = List.length pids /\ List.length (snd mr') = List.length pids /\
+     (forall j pid k, nth_error own j = Some pid -> index_of pid pids = Some k ->
+        nth_error (fst mr') k = Some (Z.of_nat (g + j)) /\ nth_error (snd mr') k = Some first) /\
+     (forall k, (forall pid, In pid own -> index_of pid pids <> Some k) ->
+        nth_error (fst mr') k = nth_error (fst mr) k /\ nth_error (snd mr') k = nth_error (snd mr) k)) /\
+  (forall v n a, (List.length a <= n)%nat ->
+     List.length (pad_array v n a) = n /\
+     (forall i, (i < List.length a)%nat -> nth_error (pad_array v n a) i = nth_error a i) /\
+     (forall i, (List.length a <= i < n)%nat -> nth_error (pad_array v n a) i = Some (v_default v))).
+Proof. exact own_groups_full. Qed.
+Print Assumptions own_groups.
+
+(** * 5. Axes *)
+
+(** full statement: the simulation built from a document with axes is the concatenation, cell
+    after cell, of the simulations built from the copies it stands for (ids suffixed with their
+    rank, memberships shifted by the number of groups per copy) *)
+Definition axes_is_concatenation_statement : Prop :=
+  forall x s doc dims ds sim base, wf_sys s ->
+    aget "axes" doc = Some dims -> parse_dims dims = Ok ds ->
+    build_from_entities x s doc = Ok sim ->
+    build_from_entities x s (aremove "axes" doc) = Ok base ->      (* one copy, axes put aside *)
+    let cells := Z.to_nat (cell_count ds) in
+    let counts := map dim_count ds in
+    forall e pop bpop, In e (entities s) -> pop_of sim e pop -> pop_of base e bpop ->
+      let n := List.length (p_ids bpop) in
+      (* entities: [cells] copies, ids suffixed with their rank, memberships shifted *)
+      p_ids pop = suffix_ids (repeat_list (p_ids bpop) cells) /\
+      p_mroles pop = repeat_list (p_mroles bpop) cells /\
+      p_members pop = tile_members (p_members bpop)
+                        (Z.of_nat (List.length (p_ids bpop))) 0 cells /\
+      (* a variable that no axis names: the copies' arrays one after the other *)
+      (forall vn, (forall d a, In d ds -> In a d -> a_name a <> vn) ->
+         forall h bh, aget vn (p_holders pop) = Some h -> aget vn (p_holders bpop) = Some bh ->
+           h = map (fun pa => (fst pa, repeat_list (snd pa) cells)) bh) /\
+      (* the variable of an axis (no set-input rule): in cell [c] the instance at the axis index
+         holds the value of the cell, the other instances what the copy holds *)
+      (forall di d a v p t, nth_error ds di = Some d -> In a d -> find_var (a_name a) (s_vars s) = Some v ->
+         v_entity v = e_key e -> v_rule v = RNone -> a_period a = Some t -> canon_key (tok x t) = Ok p ->
+         forall arr, (exists h, aget (a_name a) (p_holders pop) = Some h /\ hget h p = Some arr) ->
+         forall c i, (c < cells)%nat -> (i < n)%nat ->
+           let q := match ds with
+                    | [_] => nth c (linspace (a_min a) (a_max a) (dim_count d)) 0%Q
+                    | _ => (a_min a + inject_Z (mesh_coord counts di (Z.of_nat c)) * (a_max a - a_min a)
+                                      / inject_Z (dim_count d - 1))%Q
+                    end in
+           if Nat.eqb i (Z.to_nat (a_index a))
+           then Ok (nth (c * n + i) arr (v_default v)) = cell_of_q v q
+           else forall barr, (exists bh, aget (a_name a) (p_holders bpop) = Some bh /\ hget bh p = Some barr) ->
+                  nth_error arr (c * n + i) = nth_error barr i).
+(* Proved: the replication of the entities ([axes_entities_partial]: ids of every copy with
+   their rank as suffix, memberships of copy c shifted by c times the number of groups, roles
+   repeated: the functions that [expand_entities] applies).  Missing: [expand_entities] over
+   the dictionary of entities, the strided store [set_strided] as "cell c of the array gets the
+   c-th value at the axis index", and the commutation of the flush with the repetition of the
+   arrays (the set-input rules work element by element).  The correspondence check compares every axes document with
+   its expanded copies on the implementation and on the model. *)
+
+Theorem axes_entities_partial :
+  (forall (l : list string) cells c i id,
+     (c < cells)%nat -> nth_error l i = Some id ->
+     nth_error (suffix_ids (repeat_list l cells)) (c * List.length l + i)
+     = Some (append id (string_of_nat (c * List.length l + i)))) /\
+  (forall m cnt cells,
+     tile_members m cnt 0 cells
+     = List.concat (map (fun c => map (fun i => i + Z.of_nat c * cnt) m) (seq 0 cells))) /\
+  (forall (A : Type) (l : list A) n, repeat_list l n = List.concat (repeat l n)).
+Proof. exact axes_entities_full. Qed.
+Print Assumptions axes_entities_partial.
+
+(** * Non-vacuity: a small system and documents evaluated by the model *)
+
+Definition sys0 : sys :=
+  mkSys (mkEntity "person" "persons" [])
+        [mkEntity "household" "households"
+           [mkRole "parent" (Some "parents") (Some 2) []; mkRole "child" (Some "children") None []]]
+        [mkVariable "salary" "person" TInt Month RNone None (CInt 0) [];
+         mkVariable "birth" "person" TDate Eternity RNone None (CInt 0) [];
+         mkVariable "rent" "household" TInt Month RNone None (CInt 0) []].
+
+Definition ext0 : ext :=
+  mkExt (fun t => if String.eqb t "2018-01" then KMonth 2018 1
+                  else if String.eqb t "month:2018-01" then KPref Month (SYM 2018 1) None
+                  else if String.eqb t "2018" then KYear 2018
+                  else if String.eqb t "1980-02-30" then KDay 1980 2 30
+                  else KGarbage)
+        (fun _ => None) (fun l => rev l).
+
+Definition persons0 : json :=
+  JObj [("a", JObj [("salary", JObj [("month:2018-01", JInt 100)])]);
+        ("b", JObj [("salary", JObj [("2018-01", JInt 200)])]);
+        ("c", JObj [])].
+Definition doc0 : list (string * json) :=
+  [("persons", persons0);
+   ("households", JObj [("h1", JObj [("parents", JArr [JStr "a"]); ("rent", JObj [("2018-01", JInt 5)])])])].
+
+(* F8's input builds [100; 200; 0]; b and c get groups of their own (in the set order) that
+   hold the default rent *)
+Example build_nonvacuous :
+  match build_from_dict ext0 sys0 (JObj doc0) with
+  | Ok [pp; hh] =>
+      p_ids pp = ["a"; "b"; "c"]
+      /\ p_holders pp = [("salary", [((Month, (2018, 1, 1), 1), [CInt 100; CInt 200; CInt 0])])]
+      /\ p_ids hh = ["h1"; "c"; "b"] /\ p_members hh = [0; 2; 1]
+      /\ p_mroles hh = ["parent"; "parent"; "parent"]
+      /\ p_holders hh = [("rent", [((Month, (2018, 1, 1), 1), [CInt 5; CInt 0; CInt 0])])]
+  | _ => False
+  end.
+Proof. vm_compute. repeat split. Qed.
+
+Example ill_formed_nonvacuous :
+  (* unknown entity, unknown variable, text for a number, impossible date, unparsable period,
+     mismatched period, unknown person, duplicate membership, too many parents *)
+  build_from_dict ext0 sys0 (JObj (doc0 ++ [("families", JObj [])])) = Err ESituation
+  /\ build_from_dict ext0 sys0 (JObj [("persons", JObj [("a", JObj [("wage", JObj [])])])]) = Err ESituation
+  /\ build_from_dict ext0 sys0 (JObj [("persons", JObj [("a", JObj [("salary", JObj [("2018-01", JStr "abc")])])])])
+     = Err ESituation
+  /\ build_from_dict ext0 sys0 (JObj [("persons", JObj [("a", JObj [("birth", JObj [("2018", JStr "1980-02-30")])])])])
+     = Err ESituation
+  /\ build_from_dict ext0 sys0 (JObj [("persons", JObj [("a", JObj [("salary", JObj [("2018-13", JInt 1)])])])])
+     = Err ESituation
+  /\ build_from_dict ext0 sys0 (JObj [("persons", JObj [("a", JObj [("salary", JObj [("2018", JInt 1)])])])])
+     = Err ESituation
+  /\ build_from_dict ext0 sys0 (JObj [("persons", persons0);
+        ("households", JObj [("h", JObj [("parents", JArr [JStr "a"; JStr "z"])])])]) = Err ESituation
+  /\ build_from_dict ext0 sys0 (JObj [("persons", persons0);
+        ("households", JObj [("h", JObj [("parents", JArr [JStr "a"]); ("children", JArr [JStr "a"])])])])
+     = Err ESituation
+  /\ build_from_dict ext0 sys0 (JObj [("persons", persons0);
+        ("households", JObj [("h", JObj [("parents", JArr [JStr "a"; JStr "b"; JStr "c"])])])])
+     = Err ESituation.
+Proof. vm_compute. repeat split. Qed.
+
+(* a parallel axis: three copies, ids suffixed, memberships shifted *)
+Example axes_nonvacuous :
+  match build_from_dict ext0 sys0
+          (JObj [("persons", JObj [("a", JObj []); ("b", JObj [])]);
+                 ("households", JObj [("h", JObj [("parents", JArr [JStr "a"; JStr "b"])])]);
+                 ("axes", JArr [JArr [JObj [("count", JInt 3); ("name", JStr "salary"); ("min", JInt 0);
+                                            ("max", JInt 4); ("period", JStr "month:2018-01")]]])]) with
+  | Ok [pp; hh] =>
+      p_ids pp = ["a0"; "b1"; "a2"; "b3"; "a4"; "b5"]
+      /\ p_holders pp = [("salary", [((Month, (2018, 1, 1), 1),
+                                      [CInt 0; CInt 0; CInt 2; CInt 0; CInt 4; CInt 0])])]
+      /\ p_ids hh = ["h0"; "h1"; "h2"] /\ p_members hh = [0; 0; 1; 1; 2; 2]
+  | _ => False
+  end.
+Proof. vm_compute. repeat split. Qed.
